@@ -667,7 +667,7 @@ FAMILIES = [("b58", fam_b58), ("segwit", fam_seg), ("script-objects", fam_spk), 
 
 def histories(ctx):
     r = ctx.rng
-    for i in range(ctx.n(8, 120)):
+    for i in range(ctx.n(12, 120)):
         for name, f in FAMILIES:
             ctx.label("history/" + name)
             yield ("prop", "history", [f(ctx)])
